@@ -2,5 +2,9 @@
 EXTENDS MultiReader, Json
 \* Prints every transition of the state graph once (lastAct and the bypass history are hidden by the VIEW).
 EdgeDump == PrintT(<<"EDGE", ToJson([s |-> View, a |-> lastAct', t |-> View'])>>)
+\* burst scenario (ACTION_CONSTRAINT): every source is attached and filled to MaxItems before the first poll,
+\* then the reader only polls - the schedule on which starving a source would show
+Burst == /\ lastAct'.k # "close"
+         /\ (lastAct'.k = "poll") => \A s \in Streams : st[s] = "att" /\ sent[s] = MaxItems
 InitDump == (lastAct.k = "init") => PrintT(<<"INIT", ToJson(View)>>)
 =============================================================================
